@@ -114,6 +114,30 @@ def build() -> Check:
             bad.append(("a summarised context sends a record / re-serialises on replay", t))
         if t.outcome == "return" and not t.value.key().startswith("ret:func"):
             bad.append((f"replay returns {t.value.key()} instead of the rebuilt result", t))
+    # ... and what a re-traversed body can legitimately find OPEN beneath its (completed) context are operations whose executor runs no user code and
+    # does not wait for the outcome (a callback that was created and handed out but not awaited there): they are entered again on every re-traversal,
+    # and - when the context completed in this invocation - sit beneath a context marked as done. A read-only orphan query has no user function to protect
+    # there, and rejects the healthy branch (it is dropped as orphaned work and the invocation never returns).
+    from sa.common import applicable_cells
+    inert: dict[str, list] = {}
+    for name_, ci_, _ot, st_ in applicable_cells(pm):
+        tr_ = pm.run_cell(ci_, st_, faults=False)
+        d = inert.setdefault(name_, [ci_, False, []])
+        d[1] = d[1] or any(user_events(t, "user") for t in tr_)
+        if st_ != ABSENT:
+            d[2] += [(st_, t) for t in tr_ if t.kinds("ORPHANCHECK")]
+    n_inert = 0
+    for name_, (ci_, has_user, asked) in inert.items():
+        if has_user:
+            continue
+        n_inert += 1
+        ck.ob("R2.no-orphan-query-without-user-code", f"{ci_.module.relpath.split('aws_durable_execution_sdk_python/')[-1]}:{ci_.name}",
+              not asked, (f"an operation found {asked[0][0]} asks the orphan state although its executor runs no user code: inside a summarised context that is "
+                          "traversed again in the invocation in which it completed (everything beneath it is marked as done) an operation that is still open - a "
+                          "callback created but not awaited there - is rejected, the healthy branch is dropped as orphaned and the invocation never returns: "
+                          + trace_sig(asked[0][1])) if asked else "")
+    ck.floor("executors_without_user_code", n_inert, 3)
+
     # ... and a recorded value may only be delivered without re-running the body once the path has established that
     # the context is NOT in replay-children mode (a summarised context records '' / a summary, not its result)
     for t in traces:
